@@ -222,15 +222,24 @@ def payload(case):
     return {"method": case["method"], "offset": case["offset"], "disp": case["disp"], "flag": case["flag"]}
 
 
-VARIANTS = ["guard", "guard+bitops", "bitops"]  # the proposed repairs (Model/InterpRepaired.lean), executable only
-_MATCHED_VARIANT = []  # a variant that matched once is tried first
+_VARIANT = ["guard+or"]  # the text of the kernels the translator read from the source ("guard+or" today)
+
+
+def source_variant():
+    """which variant of the Lean model reads like the source: decided by the translator (ast), see gen_interp.variant_of"""
+    try:
+        from translator import gen_interp
+        v = gen_interp.variant_of(gen_interp.extract())
+    except Exception:  # pylint: disable=broad-except
+        v = "unknown"
+    return v
 
 
 def correspondence(ctx, case, impl, kimpl, nimpl, variant, kernels):
     """disagreements between the implementation's outputs and one variant of the Lean model (None = the model the
     theorems are about).  Returns (disagreements, sign ties, model answer of C14.run)."""
     out, ties = [], 0
-    extra = {"variant": variant} if variant else {}
+    extra = {"variant": variant}
     rows = len(case["flag"])
     cols = len(case["flag"][0]) if rows else 0
     model = ctx.lean.call("C14.run", **payload(case), **extra)
@@ -260,16 +269,15 @@ def correspondence(ctx, case, impl, kimpl, nimpl, variant, kernels):
                 out.append({"what": f"kernel {k} disparity", "r": r, "c": c, "impl": x, "model": y})
             for d in grid_diff(ki["flag"], km["flag"]):
                 out.append({"what": f"kernel {k} mask", "cell": d[:2], "impl": d[2], "model": d[3]})
-        if variant is None:
-            nm = ctx.lean.call("C14.kernel", kernel="find_valid_neighbors", disp=case["disp"], flag=case["flag"])
-            if "error" in nimpl:
-                out.append({"what": "find_valid_neighbors raised", "impl": nimpl, "model": "no error"})
-            else:
-                for r in range(rows):
-                    for c in range(cols):
-                        if grid_diff([nimpl["neighbors"][r][c]], [nm["neighbors"][r][c]]):
-                            out.append({"what": "find_valid_neighbors", "r": r, "c": c,
-                                        "impl": nimpl["neighbors"][r][c], "model": nm["neighbors"][r][c]})
+        nm = ctx.lean.call("C14.kernel", kernel="find_valid_neighbors", disp=case["disp"], flag=case["flag"])
+        if "error" in nimpl:
+            out.append({"what": "find_valid_neighbors raised", "impl": nimpl, "model": "no error"})
+        else:
+            for r in range(rows):
+                for c in range(cols):
+                    if grid_diff([nimpl["neighbors"][r][c]], [nm["neighbors"][r][c]]):
+                        out.append({"what": "find_valid_neighbors", "r": r, "c": c,
+                                    "impl": nimpl["neighbors"][r][c], "model": nm["neighbors"][r][c]})
     return out, ties, model
 
 
@@ -278,7 +286,7 @@ def evaluate(ctx, case, kernels=True):
     Returns {"impl", "model", "disagreements": [...], "failures": [...], "hits": {...}, "ties": n}."""
     res = {"disagreements": [], "failures": [], "hits": {}, "ties": 0, "triggers": {}, "variant": None}
     impl = ia.run_method(case["method"], case["offset"], case["disp"], case["flag"])
-    model = ctx.lean.call("C14.run", **payload(case))
+    model = ctx.lean.call("C14.run", variant=_VARIANT[0], **payload(case))
     res["impl"], res["model"] = impl, model
     rows = len(case["flag"])
     cols = len(case["flag"][0]) if rows else 0
@@ -294,35 +302,19 @@ def evaluate(ctx, case, kernels=True):
     if kernels and rows * cols > 0:
         kimpl = {k: ia.run_kernel(k, case["disp"], case["flag"]) for k in ia.KERNELS}
         nimpl = ia.run_find_valid_neighbors(case["disp"], case["flag"])
-    first = _MATCHED_VARIANT[0] if _MATCHED_VARIANT else None
-    dis, ties, _ = correspondence(ctx, case, impl, kimpl, nimpl, first, kernels)
-    if dis:
-        # not the first choice: the model as it stands, then the proposed repairs
-        for v in [None] + VARIANTS:
-            if v == first:
-                continue
-            dv, tv, _ = correspondence(ctx, case, impl, kimpl, nimpl, v, kernels)
-            if not dv:
-                dis, ties, first = [], tv, v
-                if v is not None and v not in _MATCHED_VARIANT:
-                    _MATCHED_VARIANT.insert(0, v)
-                break
-        else:
-            if first is not None:  # report against the model the theorems are about
-                dis, ties, _ = correspondence(ctx, case, impl, kimpl, nimpl, None, kernels)
-    res["variant"] = first
+    dis, ties, _ = correspondence(ctx, case, impl, kimpl, nimpl, _VARIANT[0], kernels)
+    res["variant"] = _VARIANT[0]
     res["ties"] = ties
     res["disagreements"].extend(dis)
     if rows * cols <= 40 and rows * cols > 0:
-        # the evaluation routes of the driver agree (the theorems are about "direct")
-        m2 = ctx.lean.call("C14.run", via="materialised", **payload(case))
-        m1 = ctx.lean.call("C14.run", via="direct", **payload(case))
-        m3 = ctx.lean.call("C14.run", via="direct", variant="as_coded_r", **payload(case))
-        if m1["disp"] != m2["disp"] or m1["flag"] != m2["flag"] or m1["disp"] != m3["disp"] or m1["flag"] != m3["flag"]:
-            res["disagreements"].append({"what": "driver: direct vs materialised vs variant(as coded)", "impl": m1["flag"], "model": m2["flag"]})
+        # the two evaluation routes of the driver agree (the theorems are about "direct")
+        m2 = ctx.lean.call("C14.run", via="materialised", variant=_VARIANT[0], **payload(case))
+        m1 = ctx.lean.call("C14.run", via="direct", variant=_VARIANT[0], **payload(case))
+        if m1["disp"] != m2["disp"] or m1["flag"] != m2["flag"]:
+            res["disagreements"].append({"what": "driver: direct vs materialised", "impl": m1["flag"], "model": m2["flag"]})
     # ---- the specification on the implementation's output
-    sp = ctx.lean.call("C14.spec", out_disp=impl["disp"], out_flag=impl["flag"], **payload(case))
-    res["spec"] = {"ok": sp["ok"], "wf": sp["wf"], "no_trigger": sp["no_trigger"]}
+    sp = ctx.lean.call("C14.spec", out_disp=impl["disp"], out_flag=impl["flag"], variant=_VARIANT[0], **payload(case))
+    res["spec"] = {"ok": sp["ok"], "wf": sp["wf"]}
     res["hits"] = sp["hits"]
     wfd = sp["wf"]
     if not sp["shape_ok"]:
@@ -335,8 +327,6 @@ def evaluate(ctx, case, kernels=True):
             # a border that is not what mask_border left there (cannot come out of a cross-check): the only claim is
             # "border pixels end with bit 0 only"; the state between the passes cannot be read off the output
             continue
-        if f["trigger"] == "filled_bit_already_set" and f["clause"] != "filled_bits":
-            continue  # `+=` carried into another bit (finding F4): the rest of that pixel's flag word is meaningless
         if not (wfd["valid_finite"] and wfd["one_flag"]):
             continue  # not a map a cross-check can produce: correspondence only
         trig = f["trigger"] or (case["method"] + ":" + (model["kind"][r][c] or "unflagged"))
@@ -387,12 +377,6 @@ def record(report, case, res, label):
         report.count("sgm_argsort_sign_ties_compared_on_abs", res["ties"])
     if res.get("sign_tie_pixels"):
         report.count("sgm_pixels_with_sign_tie_of_abs(compared_exactly)", res["sign_tie_pixels"])
-    if res.get("variant"):
-        report.count("implementation_matches_repaired_model:" + res["variant"])
-        note = ("the implementation agrees with the repaired variant '%s' of the model (Model/InterpRepaired.lean, "
-                "executable only); the theorems are about the code as it stood" % res["variant"])
-        if note not in report.notes:
-            report.notes.append(note)
     report.count("method:" + case["method"])
     report.count("label:" + label)
     rows = len(case["flag"])
@@ -403,7 +387,7 @@ def record(report, case, res, label):
         report.count("border:junk")
     if res.get("spec") and not res["spec"]["wf"]["no_stale_fill"]:
         report.count("stale_filled_bit_cases")
-    if res.get("spec") and res["spec"]["wf"]["wf"] and res["spec"]["no_trigger"]:
+    if res.get("spec") and res["spec"]["wf"]["wf"]:
         report.count("cases_inside_theorem_hypotheses")
     report.count("flagged_pixels", flagged)
 
@@ -533,26 +517,14 @@ def check_validation_case(ctx, report, vc):
         report.count("validation_run_flagged_pixels", flagged)
         if out[side]["attr"] != vc["method"]:
             report.disagree(f"validation_run: {side} map not marked as filled", vc, out[side]["attr"], vc["method"])
-        model = ctx.lean.call("C14.run", **case)
-        first = _MATCHED_VARIANT[0] if _MATCHED_VARIANT else None
-        dis = None
-        for v in [first] + [x for x in [None] + VARIANTS if x != first]:
-            mv = model if v is None else ctx.lean.call("C14.run", variant=v, **case)
-            dv = [(f"validation_run {side} disparity_map", x, y) for r, c, x, y in grid_diff(b["disp"], mv["disp"])
-                  if not (vc["method"] == "sgm" and abs_equal(x, y))]
-            dv += [(f"validation_run {side} validity_mask", d[2], d[3]) for d in grid_diff(b["flag"], mv["flag"])]
-            if v is None:
-                dis = dv
-            if not dv:
-                dis = []
-                if v is not None:
-                    report.count("implementation_matches_repaired_model:" + v)
-                    if v not in _MATCHED_VARIANT:
-                        _MATCHED_VARIANT.insert(0, v)
-                break
-        for what, x, y in dis or []:
-            report.disagree(what, vc, x, y)
-        sp = ctx.lean.call("C14.spec", out_disp=b["disp"], out_flag=b["flag"], **case)
+        model = ctx.lean.call("C14.run", variant=_VARIANT[0], **case)
+        for r, c, x, y in grid_diff(b["disp"], model["disp"]):
+            if vc["method"] == "sgm" and abs_equal(x, y):
+                continue
+            report.disagree(f"validation_run {side} disparity_map", vc, x, y)
+        for d in grid_diff(b["flag"], model["flag"]):
+            report.disagree(f"validation_run {side} validity_mask", vc, d[2], d[3])
+        sp = ctx.lean.call("C14.spec", out_disp=b["disp"], out_flag=b["flag"], variant=_VARIANT[0], **case)
         for k, n in sp["hits"].items():
             report.hit(k, n)
         seen = set()
@@ -606,6 +578,12 @@ def run(ctx, report, status):
         "distinct by (method, offset, map, mask)"
     )
     translator_cross_check(ctx, report, status)
+    v = source_variant()
+    report.count("model_variant_read_from_source:" + v)
+    if v == "unknown":
+        status.problem("translator", "the guards of the kernels are neither all present nor all absent: no variant of the model reads like this source")
+    else:
+        _VARIANT[0] = v
     # corpus first
     for name, case in core.load_corpus(PROP):
         if "validation_run" in case:
